@@ -81,13 +81,34 @@ def _depth(f, arg):
 
 
 def run_case(case, ctx):
+    c = build(case["c"])
+    evs = [query_event(c, case, ctx, 0)]
+    r = ctx.rng("C12e", case.get("salt", 0))
+    if r.random() < 0.25:
+        # the same object queried again after an in-place edit (nothing may be remembered from the first round)
+        ns = sorted(c.nodes())
+        gates = [n for n in ns if c.type(n) in ("and", "nand", "or", "nor", "xor", "xnor")]
+        if gates and r.random() < 0.7:
+            v = r.choice(gates)
+            cand = [u for u in ns if u != v and u not in c.fanin(v) and u not in c.transitive_fanout(v) and c.type(u) != "bb_input"
+                    and c.type(u) != "bb_output"]
+            if cand:
+                c.graph.add_edge(r.choice(cand), v)
+        elif c.graph.number_of_edges():
+            u, v = r.choice(sorted(c.graph.edges))
+            if c.type(v) not in ("buf", "not", "bb_input") and len(c.fanin(v)) >= 2:
+                c.graph.remove_edge(u, v)        # the gate keeps a driver: the circuit stays lint-clean
+        evs.append(query_event(c, case, ctx, 1))
+    return evs
+
+
+def query_event(c, case, ctx, phase):
     import circuitgraph as cg
 
-    c = build(case["c"])
     p = proj(c)  # re-project: topological index order when acyclic
     idx = {n: i + 1 for i, n in enumerate(p["names"])}
     names = p["names"]
-    rng = ctx.rng("C12q", case.get("salt", 0))
+    rng = ctx.rng("C12q", case.get("salt", 0), phase)
     S = lambda it: sorted(idx[x] for x in it)  # noqa: E731
     qs = []
     lists = [[n] for n in names]
